@@ -30,12 +30,12 @@ N0 == TIdx("n", 0)   N1 == TIdx("n", 1)   M0 == TIdx("m", 0)
 \* ---------------------------------------------------------------- alphabets (2-element value domain {0,1})
 FlatR == << OAssign("a", ELit(<<0, 1>>)), OAssign("b", EVar("a")), OAssign("b", EClone(A)),
             OGet(A, 0), OSet(A, 0, EInt(1)), OPush(A, EInt(0)), OPush(A, EInt(1)), OPop(A), OSwap(A, 0, 1), ORemove(A, 0),
-            OClear(A), OFind(A, EInt(1)), OPop(B), OIter(A) >>
+            OClear(A), OFind(A, EInt(1)), OPop(B), OIter(A), OProbe(A, 1) >>
 
 FlatF == << OAssign("a", ELit(<<>>)), OAssign("a", ELit(<<0>>)), OAssign("a", ELit(<<0, 1>>)), OAssign("a", ELit(<<1, 0, 1>>)),
             OAssign("a", EFilled(0, 0)), OAssign("a", EFilled(1, 2)), OAssign("a", EFilled(0, 3)),
             OAssign("b", EVar("a")), OAssign("b", EClone(A)), OAssign("a", EVar("b")), OAssign("a", EClone(A)),
-            OGet(A, -1), OGet(A, 0), OGet(A, 1), OGet(A, 2), OGet(B, 0),
+            OGet(A, -1), OGet(A, 0), OGet(A, 1), OGet(A, 2), OGet(B, 0), OProbe(A, -1), OProbe(A, 0), OProbe(A, 2), OProbe(B, 1),
             OSet(A, -1, EInt(0)), OSet(A, 0, EInt(0)), OSet(A, 0, EInt(1)), OSet(A, 1, EInt(0)), OSet(A, 1, EInt(1)),
             OSet(A, 2, EInt(1)), OSet(B, 0, EInt(1)), OSet(B, 1, EInt(0)),
             OPush(A, EInt(0)), OPush(A, EInt(1)), OPush(B, EInt(0)), OPush(B, EInt(1)),
@@ -50,7 +50,8 @@ Nest  == << OAssign("n", ELit2(<< <<0>>, <<1, 0>> >>)), OAssign("n", ELit2(<< <<
             OPush(N0, EInt(1)), OPush(N1, EInt(0)), OPush(A, EInt(0)), OSet(N0, 0, EInt(1)),
             OAssign("m", EClone(N)), OAssign("m", EVar("n")), OPush(M0, EInt(0)), OAssign("a", EClone(N0)),
             OPop(N), OPop(N1), OSwap(N, 0, 1), ORemove(N, 0), OClear(N0), OClear(M),
-            OFind(N, ELit(<<0>>)), OContains(N, EVar("a")), OGet(N, 1), OGet(N0, 0), OIter(N), OLen(N), OIsEmpty(N0) >>
+            OFind(N, ELit(<<0>>)), OContains(N, EVar("a")), OGet(N, 1), OGet(N0, 0), OIter(N), OLen(N), OIsEmpty(N0),
+            OProbe(N, 2), OProbe(N0, 1) >>
 
 \* array.filled with an array as the value: the result's elements and the template are all independent of each other
 Fill  == << OAssign("a", ELit(<<0, 1>>)), OAssign("n", EFilledV("a", 2)), OPush(A, EInt(1)), OPush(N1, EInt(0)), OPop(N1),
@@ -144,14 +145,14 @@ SimOp ==
              ELSE Pick({ELit(RandInts(Pick(0..4))), ELit(RandInts(Pick(1..5))), EFilled(Pick(0..MaxV), Pick(0..4)),
                         EVar("a"), EVar("b"), EClone(A), EClone(B), EClone(TIdx("n", ix(nl))), EIdx("n", ix(nl)), EIdx("m", ix(ml))})
       kind == Pick({<<1, "push">>, <<2, "push">>, <<3, "push">>, <<4, "push">>, <<5, "set">>, <<6, "set">>, <<7, "set">>,
-                    <<8, "get">>, <<9, "get">>, <<10, "pop">>, <<11, "pop">>, <<12, "len">>, <<13, "is_empty">>,
+                    <<8, "get">>, <<9, "get">>, <<26, "probe">>, <<10, "pop">>, <<11, "pop">>, <<12, "len">>, <<13, "is_empty">>,
                     <<14, "swap">>, <<15, "swap">>, <<16, "remove">>, <<17, "remove">>, <<18, "clear">>,
                     <<19, "find">>, <<20, "find">>, <<21, "contains">>, <<22, "iter">>,
                     <<23, "assign">>, <<24, "assign">>, <<25, "assign">>})[2]
       k2 == IF kind = "pop" /\ len = 0 /\ Pick(1..10) > 1 THEN "push"
             ELSE IF kind = "remove" /\ Cardinality(cs) > 4 THEN "push"
             ELSE IF kind = "assign" /\ T.k = "idx" THEN "push" ELSE kind
-      cand == CASE k2 = "push" -> OPush(T, E) [] k2 = "set" -> OSet(T, i, E) [] k2 = "get" -> OGet(T, i)
+      cand == CASE k2 = "push" -> OPush(T, E) [] k2 = "set" -> OSet(T, i, E) [] k2 = "get" -> OGet(T, i) [] k2 = "probe" -> OProbe(T, i)
                 [] k2 = "pop" -> OPop(T) [] k2 = "len" -> OLen(T) [] k2 = "is_empty" -> OIsEmpty(T)
                 [] k2 = "swap" -> OSwap(T, i, j) [] k2 = "remove" -> ORemove(T, i) [] k2 = "clear" -> OClear(T)
                 [] k2 = "find" -> OFind(T, E) [] k2 = "contains" -> OContains(T, E) [] k2 = "iter" -> OIter(T)
